@@ -66,6 +66,10 @@ def surfaced_in(ev):
     return "hdf5-other:" + ev["api"]
 
 
+def is_props_op(b, n):
+    return "drf_properties" in P.show_op(b.ops[n - 1][0])
+
+
 def one_fault(args):
     b, n, errno, persist = args
     sp = b.sp
@@ -268,10 +272,24 @@ def one_recording(res, sp):
         for vc in (0, 1):
             cases.append([1, b.vp, vc, n, p] + b.rec)
     flat = common.run_model("proto", cases)
+    # a disk that STAYS full: from the failing operation on, every operation that needs space fails while rename,
+    # unlink and close keep working (persist = 2).  Judged by the property's oracle only (the model's persistent
+    # fault fails every later operation); on the operations of the properties file and a sample of the others
+    npts = len(points)
+    seen_n = set()
+    for (_b, n, e, p) in list(points):
+        if n not in seen_n and (is_props_op(b, n) or res.rng.random() < 0.15):
+            seen_n.add(n)
+            points.append((b, n, P.ENOSPC, 2))
     with ThreadPoolExecutor(max_workers=6) as ex:
         results = list(ex.map(one_fault, points))
     disagreements = {0: [], 1: []}
     for i, r in enumerate(results):
+        if i >= npts:
+            res.count("disk-stays-full schedules (oracle only)")
+            analyse(res, b, r, {})
+            shutil.rmtree(r["work"], True)
+            continue
         preds = {0: P.decode_run(flat[2 * i]), 1: P.decode_run(flat[2 * i + 1])}
         ag = analyse(res, b, r, preds)
         if ag is not None:
@@ -302,7 +320,7 @@ def run(res):
                 "run on the real writer under the interposer; all distinct, all non-trivial; compared with the model's "
                 "prediction under both close-path variants and with the property's oracle (bad final file, earlier files "
                 "intact, silent loss -- accepted samples readable from the final files by raw h5py AND through DigitalRFReader --, stickiness); quick: every operation of 3 recordings with ENOSPC once, the other "
-                "errno/persistence combinations sampled (170/170/110 runs; the third recording alternates rf_write and rf_write_blocks); thorough: all combinations, 8 recordings")
+                "errno/persistence combinations sampled (170/170/110 runs; the third recording alternates rf_write and rf_write_blocks); thorough: all combinations, 8 recordings; in addition schedules in which the disk STAYS full (from the failing operation on every create / write / truncate / mkdir fails, rename / unlink / close work), on every operation of the properties file and a sample of the others, judged by the property oracle only")
     for sp in recordings(res.tier):
         one_recording(res, sp)
     res.assumptions += [
@@ -327,7 +345,7 @@ def replay(res, rp):
     outc, rc, err = P.run_writer(sp, top, log=os.path.join(work, "log"), fail_at=inp["fail_op"], errno=inp["errno"],
                                  persist=inp["persistent"])
     print("fault: operation %d (%s) fails with errno %d%s" % (inp["fail_op"], inp.get("operation"), inp["errno"],
-                                                              ", and every later one" if inp["persistent"] else ""))
+                                                              {0: "", 1: ", and every later one", 2: ", and every later operation that needs space (the disk stays full; rename, unlink, close work)"}[int(inp["persistent"])]))
     print("writer outcomes:", [(o["call"], o["ok"]) for o in outc])
     for f in P.tree_files(top):
         line = "   %s %d" % (f, os.path.getsize(os.path.join(top, f)))
